@@ -67,14 +67,16 @@ INT = {
             Err(e) => (rhs.0 == 0 || (self.0 == i64::MIN && rhs.0 == -1))
                 && e == crate::EvalexprError::DivisionError { dividend: crate::Value::Int(*self), divisor: crate::Value::Int(*rhs) },
         }''',
-        kani='''match &r { Ok(v) => { assert!(b != 0 && !(a == i64::MIN && b == -1));
+        kani='''match &r { Ok(v) => { assert!(b != 0 && !(a == i64::MIN && b == -1)); },
+                  Err(e) => { assert!(b == 0 || (a == i64::MIN && b == -1));
+                              assert!(matches!(e, EvalexprError::DivisionError { dividend: Value::Int(x), divisor: Value::Int(y) } if *x == a && *y == b)); } }''',
+        kani_value='''match &r { Ok(v) => {
                           // truncating quotient, characterised on magnitudes: |a| = |q|*|b| + rem with rem < |b|; sign rule
                           let ua = a.unsigned_abs(); let ub = b.unsigned_abs(); let uq = v.unsigned_abs();
                           let p = uq.checked_mul(ub); assert!(p.is_some()); let p = p.unwrap();
                           assert!(p <= ua && ua - p < ub);
                           assert!(*v == 0 || ((*v < 0) == ((a < 0) != (b < 0)))); },
-                  Err(e) => { assert!(b == 0 || (a == i64::MIN && b == -1));
-                              assert!(matches!(e, EvalexprError::DivisionError { dividend: Value::Int(x), divisor: Value::Int(y) } if *x == a && *y == b)); } }'''),
+                  Err(_) => {} }'''),
     'checked_rem': dict(
         doc='remainder with the sign of the dividend; b == 0 or MIN % -1 give ModulationError{dividend:a, divisor:b}',
         verus='''ensures match r {
